@@ -950,7 +950,7 @@ class Hydrodynamics:
                 )  # solve differential equation all the way from v = v+ to v = 0
                 # Sample the solution densely up to the shock front: Simpson's rule on
                 # the few points chosen by the adaptive integrator is off by percents.
-                vPlasma = np.linspace(vpcent, solShock.t[-1], 1001)
+                vPlasma = np.geomspace(vpcent, solShock.t[-1], 1001)
                 xi, T = solShock.sol(vPlasma)
                 enthalpy = np.array([self.thermodynamics.wHighT(t) for t in T])
 
